@@ -16,7 +16,7 @@
 (***************************************************************************)
 EXTENDS Integers, Sequences, FiniteSets, TLC
 
-CONSTANTS SHAPES,     \* base structures [N, R]
+CONSTANTS SHAPES,     \* base structures [N, R, scale] (scale: "unit" or "tiny" = all leaves times 1e-8)
           DEPTH,      \* nesting depth of the body
           TRACK       \* tracked sets: "x", "x0" (first core of x only), "y", "xy" (watch_list)
 
@@ -50,6 +50,8 @@ Uses(t, n) == IF t.op \in {"x", "y"} THEN t.op = n
 
 Init == /\ s \in SHAPES /\ body \in Bodies(DEPTH) /\ head \in Heads /\ red \in Reds /\ track \in TRACK
         /\ ReducerOK(head, red)
+        \* t - t is identically zero: norm is not differentiable there (and in floating point its value is sqrt of noise)
+        /\ ~(body.op = "sub" /\ body.a = body.b /\ red = "norm")
         \* the tracked operand has to occur in the program (otherwise there is nothing to differentiate)
         /\ (track \in {"x", "x0"} => Uses(body, "x"))
         /\ (track = "y" => Uses(body, "y") \/ head \in {"cat", "kron"})
